@@ -717,7 +717,7 @@ func showTx(t *gobinlog.Transaction) string {
 }
 
 // runParse feeds packets to the real parseEvents. failAt < 0: the handler accepts everything.
-func runParse(h *hist, packets [][]byte, file string, off int64, failAt int, mapperMode string, cancelEnd bool) (res string, calls []string, mcalls []string) {
+func runParse(h *hist, packets [][]byte, file string, off int64, failAt int, mapperMode string, cancelEnd bool, cancelOnFail ...bool) (res string, calls []string, mcalls []string) {
 	m := &tblMapper{tables: h.tables, mode: mapperMode}
 	s, _ := gobinlog.NewStreamer("unused", 7, m)
 	s.SetBinlogPosition(gobinlog.Position{Filename: file, Offset: off})
@@ -746,6 +746,9 @@ func runParse(h *hist, packets [][]byte, file string, off int64, failAt int, map
 			calls = append(calls, showTx(t))
 			n++
 			if failAt >= 0 && n-1 == failAt {
+				if len(cancelOnFail) > 0 && cancelOnFail[0] {
+					cancel() // the handler gives up because the caller is shutting down: still a failed call
+				}
 				return fmt.Errorf("handler failure (injected)")
 			}
 			return nil
